@@ -384,7 +384,8 @@ Proof. intros c v. split; [apply inverse2|apply inverse2_exact]; assumption. Qed
    order of ApplyContracts / RevertContracts *)
 Lemma inverse_block_v1 (h : N) (l : list pev1) (x : ch1) :
   cinv1 x -> shape1 l -> valid_evs1 h l x ->
-  heqv1 (rspec_evs1 l (spec_evs1 h l x)) x /\ (h_st x <> Rejected -> rspec_evs1 l (spec_evs1 h l x) = x).
+  heqv1 (rspec_evs1 (rorder1 l) (spec_evs1 h l x)) x /\
+  (h_st x <> Rejected -> rspec_evs1 (rorder1 l) (spec_evs1 h l x) = x).
 Proof. intros c sh v. split; [apply inverse1_evs|apply inverse1_evs_exact]; assumption. Qed.
 Lemma inverse_block_v2 (i : idx) (l : list pev2) (x : ch2) :
   cinv2 x -> shape2 l -> valid_evs2 i l x ->
@@ -483,6 +484,39 @@ Proof.
   generalize (proj1 c) (proj1 c'). intros y y' Hv Hq Hc ->.
   h1 x; h1 y; crush.
 Qed.
+
+Definition res_status1 (e : pev1) : st1 := match e with PSucc1 => Successful | PFail1 => Failed | _ => Active end.
+Definition is_res1 (e : pev1) : bool := match e with PSucc1 | PFail1 => true | _ => false end.
+
+(* a v1 contract formed AND resolved in one block (its formation confirmed in the block at its
+   window start, together with a storage proof): formation, revision and resolution are recorded *)
+Lemma formation_and_resolution_same_block buffer s K b id c k e :
+  J buffer s K -> bvalid buffer (negof1 s) (negof2 s) K b ->
+  find1 id (cs1 s) = Some c -> evl1_of id b = [PForm1; PRev1 0 k; e] -> is_res1 e = true ->
+  exists s' c', hrun buffer [HBatch 0 [b]] (s, K) = ROk (s', b :: K) /\ J buffer s' (b :: K) /\
+    find1 id (cs1 s') = Some c' /\
+    s1 c' = res_status1 e /\ formed c' = true /\ confRev c' = k /\
+    resH c' = (match e with PSucc1 => Some (bheight b) | _ => None end).
+Proof.
+  intros HJ Hb Ef Ev He.
+  destruct (connect_mentioned_v1 buffer s K b id c HJ Hb Ef) as (s' & c' & E & HJ' & Ef' & _ & Hv & Hq & Hc & Hp).
+  { rewrite Ev; discriminate. }
+  exists s', c'. split; [exact E|]. split; [exact HJ'|]. split; [exact Ef'|].
+  rewrite Ev in Hv, Hp. revert Hv Hq Hc Hp. generalize (spec1 buffer (neg1 c) id K). intros x.
+  unfold heqv1, cinv1.
+  change (s1 c') with (h_st (proj1 c')). change (formed c') with (h_formed (proj1 c')).
+  change (confRev c') with (h_conf (proj1 c')). change (resH c') with (h_res (proj1 c')).
+  generalize (proj1 c) (proj1 c'). intros y y' Hv Hq Hc ->.
+  destruct e; try discriminate; h1 x; h1 y; crush.
+Qed.
+Lemma reachable_formation_and_resolution_same_block buffer s K b id c k e :
+  reachable buffer s K -> bvalid buffer (negof1 s) (negof2 s) K b ->
+  find1 id (cs1 s) = Some c -> evl1_of id b = [PForm1; PRev1 0 k; e] -> is_res1 e = true ->
+  exists s' c', hrun buffer [HBatch 0 [b]] (s, K) = ROk (s', b :: K) /\ J buffer s' (b :: K) /\
+    find1 id (cs1 s') = Some c' /\
+    s1 c' = res_status1 e /\ formed c' = true /\ confRev c' = k /\
+    resH c' = (match e with PSucc1 => Some (bheight b) | _ => None end).
+Proof. intros H. apply formation_and_resolution_same_block. apply reachable_is_J; exact H. Qed.
 
 Lemma reachable_same_block_revision_and_resolution buffer s K b id c o n e :
   reachable buffer s K -> bvalid buffer (negof1 s) (negof2 s) K b ->
